@@ -28,11 +28,22 @@ type Explorer struct {
 	W       *World
 	C       *Config
 	Oracles map[string]bool // "C01", "C02", "C13"
+	// WithTimes puts entry ages (virtual seconds) into the state key; needed as soon as histories contain ticks.
+	WithTimes bool
+	// OnStep, if set, is called after every checked transition (C14's schedule oracle).
+	OnStep func(in *inst, e Event, out Out, hist []Event)
+	// OnNewState, if set, is called once for every newly discovered state with the live instance
+	// (which is discarded afterwards, so the callback may keep driving it).
+	OnNewState func(in *inst, hist []Event)
+	// Panicked is set when the last checked step panicked (the process would have exited).
+	Panicked bool
 	// stats
 	keysFor                     *Config
 	States, Transitions, Builds int
 	Publishes, Stores, Drops    int
 }
+
+type Inst = inst
 
 type inst struct {
 	n     *Node
@@ -55,7 +66,7 @@ func (x *Explorer) fresh() *inst {
 	}
 	n := x.W.NewNode(x.C.OwnKey, 50)
 	in := &inst{n: n, m: NewModel(x.C), store: map[string][]byte{}}
-	in.key = in.m.Key() + "#" + ImplKey(n, in.store, false)
+	in.key = in.m.Key() + "#" + ImplKey(n, in.store, x.WithTimes)
 	return in
 }
 
@@ -78,10 +89,11 @@ func (x *Explorer) step(in *inst, e Event, hist []Event, check bool) {
 	out := in.n.Step(input)
 	post := in.n.Store()
 	in.store = post
-	in.key = in.m.Key() + "#" + ImplKey(in.n, post, false)
+	in.key = in.m.Key() + "#" + ImplKey(in.n, post, x.WithTimes)
 	if !check {
 		return
 	}
+	x.Panicked = out.Panic != nil
 	if out.Panic != nil {
 		if x.Oracles["C13"] {
 			x.viol("C13", "panic: "+panicSite(out.Stack), fmt.Sprint(out.Panic), hist)
@@ -96,6 +108,9 @@ func (x *Explorer) step(in *inst, e Event, hist []Event, check bool) {
 	}
 	if x.Oracles["C02"] {
 		x.oracleC02(in, e, input, exp, out, pre, post, hist)
+	}
+	if x.OnStep != nil {
+		x.OnStep(in, e, out, hist)
 	}
 }
 
@@ -346,6 +361,12 @@ func (x *Explorer) BFSFrom(prefix []Event, depth int, menu Enabled, maxStates in
 			h := append(append([]Event{}, cur.hist...), e)
 			x.step(in, e, h, true)
 			x.Transitions++
+			if x.Panicked {
+				// the guardian process would have exited here: the history ends
+				in.n.Close()
+				in = x.build(cur.hist)
+				continue
+			}
 			if in.key == key0 {
 				if e.Kind == "lb" { // consumed a pending loopback without changing the key? then key must have changed
 					ev.Broken("loopback delivery left the state key unchanged")
@@ -361,6 +382,9 @@ func (x *Explorer) BFSFrom(prefix []Event, depth int, menu Enabled, maxStates in
 					return
 				}
 				frontier = append(frontier, node{h})
+				if x.OnNewState != nil {
+					x.OnNewState(in, h)
+				}
 			}
 			in.n.Close()
 			in = x.build(cur.hist)
@@ -387,6 +411,18 @@ func (x *Explorer) Run(hist []Event) *inst {
 		x.Transitions++
 	}
 	return in
+}
+
+// StepUnchecked drives the instance one more event without oracles and returns the outputs.
+func (x *Explorer) StepUnchecked(in *inst, e Event) Out {
+	input := x.C.Materialise(in.n, e)
+	if e.Kind == "tick" {
+		vtime.Advance(time.Duration(e.DtSec) * time.Second)
+	}
+	in.m.Apply(e, input, in.store)
+	out := in.n.Step(input)
+	in.store = in.n.Store()
+	return out
 }
 
 func (in *inst) Node() *Node   { return in.n }
